@@ -142,6 +142,7 @@ package main
 //@   safety C07
 //@   assigns GoMaps, wfailOn, scanErr, outN, stderrN, scannedN, decUseNumber, decFailed, decPos, Arr:Val, Mem:OMap, unflushed, bufDirty, scanDone
 //@   allocs Arr:Str
+//@   requires compressed-input-is-verified-before-lines-are-written {C08}: !unverified[r]
 //@   requires: !wfailOn[outWriter] && !scanErr
 //@   loop 1 invariant io-ok {C08}: !wfailOn[outWriter] && !scanErr
 //@   loop 1 invariant out-grows: outN >= old(outN) && wfailOn == store(old(wfailOn), outWriter, wfailOn[outWriter])
@@ -179,6 +180,7 @@ package main
 //@   safety C07
 //@   assigns GoMaps, wfailOn, scanErr, outN, stderrN, scannedN, envOps, decUseNumber, decFailed, decPos, Arr:Val, Mem:OMap, unflushed, bufDirty, scanDone
 //@   allocs Arr:Str
+//@   requires compressed-input-is-verified-before-lines-are-written {C08}: !unverified[r]
 //@   requires: !wfailOn[outWriter] && !scanErr
 //@   requires key-in-use-is-the-persisted-one {C11}: implies(shouldEncrypt && encryptionKey != nil, havePersisted && persistedKey == mkbytes(elems(encryptionKey), off(encryptionKey), len(encryptionKey)))
 //@   sets envOps := envOps + 1
@@ -349,7 +351,7 @@ package main
 //@   local kf := *encryptionKeyFile
 //@   local encOn := enc && kf != ""
 //@   local keyValid := fsKind[kf] == 1 && b64ok(bstr(fsData[kf])) && blen(b64dec(bstr(fsData[kf]))) == 64
-//@   requires: processedN == 0 && effects == 0 && envOps == 0 && stderrN == 0 && tmp == emptyset && wfailOn == noFail && !scanErr && !openFail && !havePersisted && bufUnder == noBuf && unflushed == 0
+//@   requires: unverified == noFail && processedN == 0 && effects == 0 && envOps == 0 && stderrN == 0 && tmp == emptyset && wfailOn == noFail && !scanErr && !openFail && !havePersisted && bufUnder == noBuf && unflushed == 0
 //@   requires: len(args) <= 1 && !shouldEncrypt && encryptionKey == nil
 //@   loop 1 invariant every-downloaded-file-is-processed {C16}: processedN == _idx
 //@   loop 1 invariant temp-files {C17}: tmp == elemsS(elems(files), off(files), len(files)) && !scanErr && !openFail && wfailOn == store(store(noFail, os.Stdout, wfailOn[os.Stdout]), os.Stderr, wfailOn[os.Stderr])
